@@ -16,6 +16,8 @@ ASSUMPTIONS = ["object identity / aliasing between generators is exercised on th
                "express it); the theorem `interleave` covers the schedule-independence of the model"]
 MODEL_IS_SPEC = True
 
+responses_agree = genutil.same_events
+
 
 def is_trivial(line, mo):
     return mo.count(" P ") + mo.count(" U ") + mo.count(" R ") < 2
